@@ -79,7 +79,7 @@ def main(tier, args):
     vf.finish(PID, tier, res, t0,
               rule="every program of <=3 routines x every script of <= len ops over the family alphabet (families enumerated exhaustively: " + desc + ") "
                    "x every main-context schedule (scheduler rounds until no routine is ready, with up to `acts` resume(r)/cancel(r)/cleanup actions placed before every scheduler round and at idle, "
-                   "final cleanup()), each run on a real epoll Loop (kForever, one loop per program) + fresh Scheduler + Channel/Mutex/Semaphore/Broadcast/Condition; "
+                   "final cleanup()), each run on a real epoll Loop (kForever; one loop per program, replaced whenever a run leaves a deferred call queued) + fresh Scheduler + Channel/Mutex/Semaphore/Broadcast/Condition; "
                    "oracle = reference model (FIFO exactly-once, one holder, acquisitions<=releases+initial) after every pass, lost-wake-up invariants whenever ready queue is empty "
                    "(private state read with -fno-access-control), cancel/cleanup termination with failure, join liveness and safety; "
                    "states = distinct canonical idle states (summed per process), executions = program x schedule runs",
